@@ -122,6 +122,113 @@ func callResults(call *ssa.Call) map[int]ssa.Value {
 	return out
 }
 
+// valueCallSites lists the places inside `in` where fn runs: its static call sites and the calls of a function value
+// that is fn itself (a literal) or fn's bound-method wrapper (`x.m` used as a value, directly or kept in a local
+// variable).  complete is false when such a function value is also used for something else than being called (it
+// escapes: it may be called from anywhere).
+func valueCallSites(fn *ssa.Function, in []*ssa.Function) (sites []ssa.CallInstruction, complete bool) {
+	sites = callSitesOf(fn, in)
+	complete = true
+	for _, f := range in {
+		ssau.Instrs(f, func(ins ssa.Instruction) {
+			mc, ok := ins.(*ssa.MakeClosure)
+			if !ok {
+				return
+			}
+			w, isF := mc.Fn.(*ssa.Function)
+			if !isF || (w != fn && boundTarget(w) != fn) {
+				return
+			}
+			var uses func(v ssa.Value, depth int)
+			uses = func(v ssa.Value, depth int) {
+				for _, r := range ssau.Referrers(v) {
+					switch y := r.(type) {
+					case *ssa.DebugRef:
+					case ssa.CallInstruction:
+						if y.Common().Value == v && !y.Common().IsInvoke() {
+							isArg := false
+							for _, a := range y.Common().Args {
+								isArg = isArg || a == v
+							}
+							if !isArg {
+								sites = append(sites, y)
+								continue
+							}
+						}
+						complete = false
+					case *ssa.Store:
+						// kept in a local variable that is only loaded from
+						al, isAl := y.Addr.(*ssa.Alloc)
+						if !isAl || y.Val != v || depth > 2 {
+							complete = false
+							continue
+						}
+						for _, r2 := range ssau.Referrers(al) {
+							switch z := r2.(type) {
+							case *ssa.DebugRef:
+							case *ssa.Store:
+								if z.Addr != ssa.Value(al) || z.Val == ssa.Value(al) {
+									complete = false
+								}
+							case *ssa.UnOp:
+								if z.Op != token.MUL {
+									complete = false
+									continue
+								}
+								if z2 := ssa.Value(z); z2 != v {
+									uses(z2, depth+1)
+								}
+							default:
+								complete = false
+							}
+						}
+					case *ssa.Phi:
+						if depth > 2 {
+							complete = false
+							continue
+						}
+						uses(y, depth+1)
+					default:
+						complete = false
+					}
+				}
+			}
+			uses(mc, 0)
+		})
+	}
+	return sites, complete
+}
+
+// siteInFnVia is siteInFn that also finds the instruction of fn through which `in` is reached when the way leads
+// through a function value: the call of a literal or of a method value whose function (or a function of its
+// closure) holds the instruction.
+func siteInFnVia(fn *ssa.Function, in ssa.Instruction) ssa.Instruction {
+	if s := siteInFn(fn, in); s != nil {
+		return s
+	}
+	target := in.Parent()
+	var site ssa.Instruction
+	for _, g := range pkgClosure(fn) {
+		if site != nil {
+			break
+		}
+		holds := false
+		for _, h := range pkgClosure(g) {
+			holds = holds || h == target
+		}
+		if !holds || g == fn {
+			continue
+		}
+		sites, _ := valueCallSites(g, ssau.WithAnon(fn))
+		for _, s := range sites {
+			if s.Parent() == fn && site == nil {
+				site = s
+			}
+		}
+	}
+	return site
+}
+
 func C13(c *Ctx) {
 	c.R.Explanation = "Decides structural necessary conditions of representation independence and idempotent compilation: (R1) the pattern parser is applied at exactly one site (inside ParsePatterns' branch loop), every value stored into Branch.Pattern there is the canonicalised (JSON round-tripped) parser result, and a successful ParsePatterns records that patterns are in parsed form (PatternSyntax set to a pass-through constant) so that a second Compile or a Compile after reload cannot parse again; (R2) every field of type *ActionSource reachable from Spec has a Compile call on it inside Spec.Compile whose error is propagated, and no iteration of the node loop or branch loop can skip the branching-type check or the guard compilation; (R3) every nil-error return of Compile is dominated by the store compiled=true and that store is reached only past all compilation; (R4) unknown pattern syntax, branching type and interpreter each lead to a non-nil error; (R5) every host function that returns a spec it unmarshalled passes it through Compile with the error checked. Behavioural equivalence of the renderings is not decided."
 	c.R.Rule("C13-R1", "E3+E5", "parse once, canonicalise, remember", 4)
@@ -181,8 +288,9 @@ func C13(c *Ctx) {
 			if inPC[g] || prog.PkgOf(g) != "core" || g.Parent() != nil || (g.Object() != nil && g.Object().Exported()) {
 				continue
 			}
-			sites := callSitesOf(g, coreFns)
-			all := len(sites) > 0
+			// (g may be a method that ParsePatterns uses as a method value: then it runs where that value is called)
+			sites, complete := valueCallSites(g, coreFns)
+			all := len(sites) > 0 && complete
 			for _, st := range sites {
 				top := st.Parent()
 				for top.Parent() != nil {
@@ -232,8 +340,8 @@ func C13(c *Ctx) {
 		if f == parse || depth > 3 {
 			return f == parse
 		}
-		sites := callSitesOf(f, pcFns)
-		if len(sites) == 0 {
+		sites, complete := valueCallSites(f, pcFns)
+		if len(sites) == 0 || !complete {
 			return false
 		}
 		for _, site := range sites {
@@ -336,7 +444,7 @@ func C13(c *Ctx) {
 		var pcBlock *ssa.BasicBlock
 		for _, pc := range parserCalls {
 			if inPC[pc.Parent()] {
-				if site := siteInFn(parse, pc); site != nil {
+				if site := siteInFnVia(parse, pc); site != nil {
 					pcBlock = site.Block()
 				}
 			}
@@ -435,8 +543,117 @@ func C13(c *Ctx) {
 		}
 		return true
 	}
+	inClosure := map[*ssa.Function]bool{}
+	for _, g := range closure {
+		inClosure[g] = true
+	}
+	isAction := func(t types.Type) bool { return ssau.TypeIs(t, prog.Abs("core"), "Action") }
+	// compilesParam: h is handed a source (parameter #pi) and every Action it hands out — returns, or stores anywhere
+	// but into a variable of its own — is the result of compiling that source (or nil): an Action that comes from
+	// somewhere else (a table of Actions compiled before, say) is not the compiled form of this source
+	var compilesParam func(h *ssa.Function, pi int, depth int) bool
+	compilesParam = func(h *ssa.Function, pi int, depth int) bool {
+		if depth > 3 || pi >= len(h.Params) {
+			return false
+		}
+		p := ssa.Value(h.Params[pi])
+		isCompiled := func(v ssa.Value) bool {
+			var cl *ssa.Call
+			switch x := v.(type) {
+			case *ssa.Extract:
+				if x.Index == 0 {
+					cl, _ = x.Tuple.(*ssa.Call)
+				}
+			case *ssa.Call:
+				cl = x
+			}
+			if cl == nil || cl.Common().IsInvoke() {
+				return false
+			}
+			sc := cl.Common().StaticCallee()
+			if sc == asCompile {
+				return cl.Common().Args[0] == p
+			}
+			if sc != nil && sc != h && inClosure[sc] {
+				for j, a := range cl.Common().Args {
+					if a == p && compilesParam(sc, j, depth+1) {
+						return true
+					}
+				}
+			}
+			return false
+		}
+		var handed []ssa.Value
+		ssau.Instrs(h, func(in ssa.Instruction) {
+			switch x := in.(type) {
+			case *ssa.Return:
+				for _, r := range x.Results {
+					if isAction(r.Type()) {
+						handed = append(handed, r)
+					}
+				}
+			case *ssa.Store:
+				if _, isLocal := x.Addr.(*ssa.Alloc); !isLocal && isAction(x.Val.Type()) {
+					handed = append(handed, x.Val)
+				}
+			}
+		})
+		n := 0
+		for _, hv := range handed {
+			for _, d := range phiDefs(hv, nil, map[ssa.Value]bool{}) {
+				if ssau.IsNilConst(d) {
+					continue
+				}
+				if !isCompiled(d) {
+					return false
+				}
+				n++
+			}
+		}
+		return n > 0
+	}
+	// handedDown: the receiver of a Compile call is a source field read on the spot, or a parameter of a helper that
+	// hands out nothing but what it compiled from it, at every call of that helper up to where the field is read
+	var handedDown func(v ssa.Value, depth int) bool
+	handedDown = func(v ssa.Value, depth int) bool {
+		if depth > 4 {
+			return false
+		}
+		switch x := v.(type) {
+		case *ssa.Parameter:
+			h := x.Parent()
+			idx := -1
+			for i, hp := range h.Params {
+				if hp == x {
+					idx = i
+				}
+			}
+			if idx < 0 || h == compile || !compilesParam(h, idx, 0) {
+				return false
+			}
+			sites := callSitesOf(h, closure)
+			for _, s := range sites {
+				if idx >= len(s.Common().Args) || !handedDown(s.Common().Args[idx], depth+1) {
+					return false
+				}
+			}
+			return len(sites) > 0
+		case *ssa.Phi:
+			for _, e := range x.Edges {
+				if !handedDown(e, depth+1) {
+					return false
+				}
+			}
+			return true
+		case *ssa.UnOp:
+			_, isFA := x.X.(*ssa.FieldAddr)
+			return isFA && x.Op == token.MUL
+		}
+		return false
+	}
 	for _, f := range fields {
 		ok := false
+		why := "the source in " + f.typ + "." + f.field + " is never compiled (or its error is dropped)"
 		var site ssa.Instruction
 		for _, g := range closure {
 			ssau.Instrs(g, func(in ssa.Instruction) {
@@ -444,10 +661,22 @@ func C13(c *Ctx) {
 				if !isC || cl.Common().StaticCallee() != asCompile {
 					return
 				}
-				if _, is := isFieldLoad(cl.Common().Args[0], "core", f.typ, f.field); is {
+				// the receiver is the field itself, or a source handed down to the helper that compiles it
+				// (`compileInto(spec.BootSource, &spec.Boot)`): the parameter is followed to its call sites
+				is := false
+				for _, d := range deepDefs(cl.Common().Args[0], closure) {
+					if _, isF := isFieldLoad(d, "core", f.typ, f.field); isF {
+						is = true
+					}
+				}
+				if is {
 					site = in
 					if errDeep(g, callResults(cl)[1], 0) {
-						ok = true
+						if handedDown(cl.Common().Args[0], 0) {
+							ok = true
+						} else {
+							why = "the source in " + f.typ + "." + f.field + " goes through " + fname(g) + ", which also hands out Actions that it did not compile from the source it was given"
+						}
 					}
 				}
 			})
@@ -456,7 +685,7 @@ func C13(c *Ctx) {
 		if site != nil {
 			pos = c.pos(site)
 		}
-		c.R.Check(ok, "C13-R2", "Compile: compiles "+f.typ+"."+f.field, pos, "ActionSource.Compile called on the field, error propagated", "the source in "+f.typ+"."+f.field+" is never compiled (or its error is dropped)")
+		c.R.Check(ok, "C13-R2", "Compile: compiles "+f.typ+"."+f.field, pos, "ActionSource.Compile called on the field, error propagated", why)
 	}
 	// the compiled action is stored into the matching target field under the call's success
 	// no iteration skips validation
